@@ -64,6 +64,13 @@ func (sb *SelBase) Column() int {
 // then a new context is created by calling the New function on the Nester
 // with the current field.
 func (sb *SelBase) SetContextRecursive(ctx interface{}) {
+	sb.setContext(ctx, nil)
+}
+
+// setContext does the work of SetContextRecursive. The active argument is the
+// fragments being walked, a fragment that includes itself is not walked
+// again.
+func (sb *SelBase) setContext(ctx interface{}, active []*Fragment) {
 	for _, sel := range sb.Sels {
 		switch ts := sel.(type) {
 		case *Field:
@@ -71,11 +78,23 @@ func (sb *SelBase) SetContextRecursive(ctx interface{}) {
 				ctx = n.Nest(ts)
 			}
 			ts.Context = ctx
-			ts.SetContextRecursive(ts.Context)
+			ts.setContext(ts.Context, active)
 		case *Inline:
-			ts.SetContextRecursive(ctx)
+			ts.setContext(ctx, active)
 		case *FragRef:
-			ts.Fragment.SetContextRecursive(ctx)
+			if ts.Fragment == nil {
+				break
+			}
+			looped := false
+			for _, f := range active {
+				if f == ts.Fragment {
+					looped = true
+					break
+				}
+			}
+			if !looped {
+				ts.Fragment.setContext(ctx, append(active, ts.Fragment))
+			}
 		}
 	}
 }
